@@ -313,7 +313,7 @@ class State:
             if isinstance(a.seq, SeqLit) and isinstance(b.seq, SeqLit) and len(a.seq.items) == len(b.seq.items):
                 return SliceV(a.t, z3.If(c, a.len, b.len), SeqLit([self.ite(c, x, y) for x, y in zip(a.seq.items, b.seq.items)]),
                               z3.If(c, to_bool(a.nil), to_bool(b.nil)))
-            raise Unsupported("ite of different slices")
+            return SliceV(a.t, z3.If(c, a.len, b.len), SeqIte(c, a.seq, b.seq), z3.If(c, to_bool(a.nil), to_bool(b.nil)))
         if isinstance(a, PtrV) and isinstance(b, PtrV):
             if a.cell == b.cell and a.path == b.path:
                 return a
@@ -417,6 +417,8 @@ class State:
             return self.ite(i == seq.idx, seq.val, self.seq_read(seq.base, i))
         if isinstance(seq, SeqOff):
             return self.seq_read(seq.base, i + seq.off)
+        if isinstance(seq, SeqIte):
+            return self.ite(seq.c, self.seq_read(seq.a, i), self.seq_read(seq.b, i))
         raise Unsupported("seq_read %r" % type(seq))
 
     # ------------------------------------------------------------------ maps
